@@ -193,6 +193,49 @@ theorem C10_integrity_ok (c : Cell) (st : Store) (hwf : StoreWF st) (hids : (c.a
       rw [this]
       simp
 
+/-- **C10 for the start-up publication (`Master.init_schedule`, two loops since fix 2051b6a).**
+    Let no instance have records under two servers in the store the new master found (`hnd`), let
+    every record be under a member of the cell (`hloaded`: `restore_placements` drops the others,
+    `C11_startup_loaded`) and let `c'` be the cell after the start-up cycle (`CellViews`: scheduler
+    invariants).  Then after ANY prefix of the writes `init_schedule` issues no instance has
+    placement records under two servers: the first loop only deletes; once it is complete every
+    remaining record is a placement of `c'`, and the second loop only writes placements of `c'`. -/
+theorem C10_init_prefix (c' : Cell) (st : Store) (now : Int) (hc : CellViews c')
+    (hloaded : ∀ r ∈ st.recs, r.srv ∈ c'.tree.leaves) (hnd : NoDouble st) (k : Nat) :
+    NoDouble (st.applyAll now ((initWrites c' st).take k)) := by
+  rw [initWrites_eq, List.take_append, applyAll_append]
+  by_cases hk : k ≤ (passA c' st).length
+  · have h0 : k - (passA c' st).length = 0 := by omega
+    rw [h0, List.take_zero, applyAll_nil]
+    rw [noDouble_iff_keys] at hnd ⊢
+    intro s₁ s₂ a h₁ h₂
+    have sh : ∀ w ∈ (passA c' st).take k, (∃ s' a', w = Write.delRec s' a') ∨ (∃ s', w = Write.mkNode s') :=
+      fun w hw => passA_shape c' st w (List.mem_of_mem_take hw)
+    exact hnd s₁ s₂ a ((hasKey_applyAll_delmk now _ st s₁ a sh).mp h₁).1
+      ((hasKey_applyAll_delmk now _ st s₂ a sh).mp h₂).1
+  · have hfull : (passA c' st).take k = passA c' st := List.take_of_length_le (by omega)
+    rw [hfull]
+    apply noDouble_of_fun (srvOf c')
+    intro s a hk'
+    apply placedOn_iff.mp
+    rcases hasKey_applyAll_origin now _ _ s a hk' with h1 | ⟨i, n, e, hm⟩
+    · obtain ⟨h0, hnot⟩ := (keys_after_passA now c' st s a).mp h1
+      obtain ⟨r, hr, rfl, rfl⟩ := h0
+      have hs := hloaded r hr
+      obtain ⟨sv, hsv⟩ := Option.isSome_iff_exists.mp (hc.leavesLoaded r.srv hs)
+      have ha : r.app ∈ sv.apps := by
+        apply Classical.byContradiction
+        intro hna
+        exact hnot ⟨hs, sv, hsv, hna⟩
+      exact (hc.views r.srv sv hsv r.app).mp ha
+    · have hm' := List.mem_of_mem_take hm
+      rcases List.mem_append.mp hm' with hm' | hm'
+      · obtain ⟨sid, sv, aid, x, _, hsv, ha, _, heq⟩ := mem_passB hm'
+        injection heq with e1 e2
+        subst e1 e2
+        exact (hc.views s sv hsv a).mp ha
+      · simp at hm'
+
 /-! ### concrete fixtures (non-vacuity examples and finding witnesses of C09 / C10) -/
 namespace Ex
 
@@ -241,19 +284,62 @@ example : StoreWF (Ex.storeOn 1) ∧ (Ex.downCell.apps.map (·.id)).Nodup ∧ Ag
       rw [h sid]; split <;> simp,
     by decide +kernel⟩, by decide +kernel, agreeWhere_of_B (by decide +kernel) (by decide +kernel)⟩
 
-/-- **Witness of finding F11** (`init_schedule` publishes in ONE pass): from a store that agrees with
-    the restored model, the start-up cycle moves instance 10 from server 2 to server 1; the writes
-    are `put (1,10)` and only then `delete (2,10)`: after the first two ZooKeeper writes the
-    instance has placement records under two servers.  The two-pass theorem `C10_prefix` has no
-    counterpart for `initSchedule`. -/
-theorem C10_F11_witness :
-    recsPlacedB Ex.down2 (Ex.storeOn 2) = true ∧
-    ∃ m' ws, initSchedule ⟨Ex.down2, Ex.storeOn 2⟩ Ex.q10 [] = .ok (m', ws) ∧
-      ¬ NoDouble ((Ex.storeOn 2).applyAll 5 (ws.take 2)) := by
-  refine ⟨by decide +kernel, ?_⟩
-  refine ⟨(getOk (initSchedule ⟨Ex.down2, Ex.storeOn 2⟩ Ex.q10 [])).1,
-          (getOk (initSchedule ⟨Ex.down2, Ex.storeOn 2⟩ Ex.q10 [])).2, eq_ok_pair (by decide +kernel), ?_⟩
-  rw [← noDoubleB_iff]
-  decide +kernel
+namespace Ex
+/-- the cell after the start-up cycle of `down2` (instance moved from the down server 2 to server 1) -/
+def started : Cell := getOk (schedule down2 q10 [])
+
+theorem started_views : CellViews started := by
+  have hids : started.apps.map (·.id) = [10] := by decide +kernel
+  have h10 : (started.app? 10).map (·.server) = some (some 1) := by decide +kernel
+  have happ : ∀ x, x ≠ 10 → started.app? x = none := by
+    intro x hx
+    cases hf : started.app? x with
+    | none => rfl
+    | some a =>
+      have := app?_some_mem_ids hf
+      rw [hids] at this
+      simp at this; exact absurd this hx
+  have hplaced : ∀ aid sid, placedOn started aid sid ↔ aid = 10 ∧ sid = 1 := by
+    intro aid sid
+    unfold placedOn
+    by_cases hx : aid = 10
+    · subst hx
+      cases h : started.app? 10 with
+      | none => rw [h] at h10; cases h10
+      | some a =>
+        rw [h] at h10
+        simp only [Option.map_some, Option.some.injEq] at h10
+        simp [h10, eq_comm]
+    · simp [happ aid hx, hx]
+  refine ⟨by decide +kernel, ?_, ?_⟩
+  · intro sid s hs aid
+    have hm : sid ∈ started.srvs.map (·.id) := srv?_some_mem_ids hs
+    have hsids : started.srvs.map (·.id) = [1, 2] := by decide +kernel
+    rw [hsids] at hm
+    rw [hplaced]
+    simp only [List.mem_cons, List.not_mem_nil, or_false] at hm
+    rcases hm with rfl | rfl
+    · have hs1 : (started.srv? 1).map (·.apps) = some [10] := by decide +kernel
+      rw [hs] at hs1
+      simp only [Option.map_some, Option.some.injEq] at hs1
+      simp [hs1]
+    · have hs2 : (started.srv? 2).map (·.apps) = some [] := by decide +kernel
+      rw [hs] at hs2
+      simp only [Option.map_some, Option.some.injEq] at hs2
+      simp [hs2]
+  · intro aid sid hp
+    have hl : started.tree.leaves = [1, 2] := by decide +kernel
+    rw [hl, ((hplaced aid sid).mp hp).2]
+    simp
+end Ex
+
+/-- Non-vacuity of `C10_init_prefix`: the hypotheses hold for the concrete start-up state in which the
+    start-up cycle MOVES the instance (server 2 down -> server 1), and the publication is now the
+    delete of the old record BEFORE the put of the new one. -/
+example : isOkB (schedule Ex.down2 Ex.q10 []) = true ∧ CellViews Ex.started ∧
+    (∀ r ∈ (Ex.storeOn 2).recs, r.srv ∈ Ex.started.tree.leaves) ∧ NoDouble (Ex.storeOn 2) ∧
+    initWrites Ex.started (Ex.storeOn 2) =
+      [.mkNode 1, .mkNode 2, .delRec 2 10, .putRec 1 10 none none (some 105), .saveBlob] :=
+  ⟨by decide +kernel, Ex.started_views, by decide +kernel, noDoubleB_iff.mp (by decide +kernel), by decide +kernel⟩
 
 end TmVerif.Master
